@@ -591,7 +591,38 @@ func typesFor(c *Call) []string {
 	return typeOrder
 }
 
+// subclass refines an anomaly site so that known findings can be matched narrowly
+func subclass(c *Call) string {
+	switch c.Op {
+	case "SSetVar":
+		switch {
+		case c.I[4] < 0:
+			return "neg-order"
+		case c.I[4] > 2:
+			return "order>2"
+		}
+		return "index"
+	case "SDyadic":
+		return fmt.Sprintf("alias=%d", c.O)
+	case "VPermute":
+		return fmt.Sprintf("len%+d", sign(len(c.Pi)-c.R.N))
+	case "MPermRows", "MPermCols", "MSymPerm":
+		return fmt.Sprintf("len%+d", sign(len(c.Pi)-c.MR.R))
+	}
+	return ""
+}
+func sign(x int) int {
+	switch {
+	case x < 0:
+		return -1
+	case x > 0:
+		return 1
+	}
+	return 0
+}
+
 type Anomaly struct {
+	Sub   string `json:"sub"`
 	Site  string `json:"site"`
 	What  string `json:"what"`
 	Type  string `json:"type"`
@@ -663,9 +694,9 @@ func runGuard(opts Opts, calls []Call, name string) {
 		}
 		w.CountN("executions", len(typesFor(c)))
 		if a := classify(c, *first); a != "" {
-			k := site(c) + "|" + a
+			k := site(c) + "|" + a + "|" + subclass(c)
 			if anom[k] == nil {
-				anom[k] = &Anomaly{Site: site(c), Type: a, Call: *c, Obs: *first}
+				anom[k] = &Anomaly{Site: site(c), Sub: subclass(c), Type: a, Call: *c, Obs: *first}
 			}
 			anom[k].Count++
 		}
